@@ -1,5 +1,9 @@
 import Huginn.Lemmas.SigText
 import Huginn.Lemmas.SigTextHttp
+import Huginn.Lemmas.SigTextBundledTcp
+import Huginn.Lemmas.SigTextBundledHttpA
+import Huginn.Lemmas.SigTextBundledHttpB
+import Huginn.Lemmas.SigTextBundledHttpC
 /-
 C06 — signature text round-trips; the database loads losslessly.
 Property theorems only; helper lemmas live in `Huginn/Lemmas/SigText*.lean`.
@@ -7,6 +11,59 @@ Property theorems only; helper lemmas live in `Huginn/Lemmas/SigText*.lean`.
 namespace Huginn.Props.C06
 open Huginn.Sig Huginn.SigText Huginn.SigText.Spec
 set_option linter.unusedSimpArgs false
+
+/-! ### the model's literals are the regenerated ones (mechanism T)
+
+The plain-tag tables of the model *are* `Gen/Tokens.lean`.  The structured alternatives
+(`parseTtl`, `parseWSize`, the `eol+n` / `?n` arms, the field sequences, the `Display` templates)
+are written out in `Model/SigText.lean`; these theorems pin them to what the extractor found in
+db_parse.rs / display.rs, so an edit there re-opens them. -/
+
+theorem gen_ttl_arms : Huginn.Gen.Tokens.ttlParse =
+    [("num-suffix", "-", 8, "Bad"), ("num-suffix", "+?", 8, "Guess"), ("num-sep-num", "+", 8, "Distance"),
+     ("num", "", 8, "Value")] := by decide +kernel
+
+theorem gen_window_arms : Huginn.Gen.Tokens.windowParse =
+    [("tag", "*", 0, "Any"), ("prefix-num", "mss*", 8, "Mss"), ("prefix-num", "mtu*", 8, "Mtu"),
+     ("prefix-num", "%", 16, "Mod"), ("num", "", 16, "Value")] := by decide +kernel
+
+/-- `eol+n` first, then only plain tags, `?n` (with `unwrap_or(0)`) last -/
+theorem gen_option_arms :
+    Huginn.Gen.Tokens.tcpOptionParse.head? = some ("prefix-num", "eol+", 8, "Eol") ∧
+    Huginn.Gen.Tokens.tcpOptionParse.getLast? = some ("prefix-num-or0", "?", 8, "Unknown") ∧
+    (Huginn.Gen.Tokens.tcpOptionParse.drop 1).dropLast.all (fun a => a.1 == "tag") = true := by decide +kernel
+
+theorem gen_tcp_shape : Huginn.Gen.Tokens.tcpSigShape =
+    ["parse_ip_version", "tag :", "parse_ttl", "tag :", "num 8", "tag :", "optnum * 16", "tag :",
+     "parse_window_size", "tag ,", "optnum * 8", "tag :", "list0 , parse_tcp_option", "tag :",
+     "list0 , parse_quirk", "tag :", "parse_payload_size"] := by decide +kernel
+
+theorem gen_http_shape : Huginn.Gen.Tokens.httpSigShape =
+    ["parse_http_version", "tag :", "list1 , parse_http_header", "tag :", "optlist0 , parse_http_header",
+     "tag :", "rest"] := by decide +kernel
+
+theorem gen_display_templates :
+    Huginn.Gen.Tokens.ttlPrint = [("Value", "{}"), ("Distance", "{}+{}"), ("Guess", "{}+?"), ("Bad", "{}-")] ∧
+    Huginn.Gen.Tokens.windowPrint =
+      [("Mss", "mss*{}"), ("Mtu", "mtu*{}"), ("Value", "{}"), ("Mod", "%{}"), ("Any", "*")] ∧
+    Huginn.Gen.Tokens.tcpOptionPrint.lookup "Eol" = some "eol+{}" ∧
+    Huginn.Gen.Tokens.tcpOptionPrint.lookup "Unknown" = some "?{}" ∧
+    Huginn.Gen.Tokens.tcpSigWrites =
+      ["{}:{}:{}:", "{mss}", "*", ":{},", "{scale}", "*", ":", ",", "{o}", ":", ",", "{q}", ":{}"] ∧
+    Huginn.Gen.Tokens.httpSigWrites = ["{}:", ",", "{h}", ":", ",", "{h}", ":{}"] ∧
+    Huginn.Gen.Tokens.headerWrites = ["?", "=[{value}]"] ∧
+    Huginn.Gen.Tokens.labelWrites = ["{}:{}:{}:{}"] := by decide +kernel
+
+/-- no regenerated tag arm names a variant the model does not know (nothing silently dropped) -/
+theorem gen_tables_complete :
+    ipVersionTable.length = Huginn.Gen.Tokens.ipVersionParse.length ∧
+    quirkTable.length = Huginn.Gen.Tokens.quirkParse.length ∧
+    payloadTable.length = Huginn.Gen.Tokens.payloadParse.length ∧
+    httpVersionTable.length = Huginn.Gen.Tokens.httpVersionParse.length ∧
+    labelTypeTable.length = Huginn.Gen.Tokens.labelTypeParse.length ∧
+    plainOptTable.length + 2 = Huginn.Gen.Tokens.tcpOptionParse.length := by decide +kernel
+
+/-! ### TCP signatures -/
 
 /-- **TCP signatures print to text that parses back to the same value** — every value whose
 numeric fields fit their Rust widths; option and quirk lists of any length, also empty. -/
@@ -90,5 +147,46 @@ theorem kf_httpEmptyHorder_witness : ¬ FullHttpPrintParse := by
 example : WFHttpL ⟨.any, [⟨false, "Host".toList, none⟩, ⟨true, "Accept".toList, some ",*/*;q=".toList⟩],
     [⟨false, "Keep-Alive".toList, none⟩], "Firefox/".toList⟩ ∧
     ¬ Huginn.KF.C06.httpEmptyHorder ⟨.any, [⟨false, "Host".toList, none⟩], [], []⟩ := by decide +kernel
+
+/-! ### every signature line of the bundled p0f.fp -/
+
+/-- **Every `sig =` line of the `[tcp:*]` sections of the bundled p0f.fp** (regenerated into
+`Gen/BundledChars.lean`) parses, and the parsed value prints back to exactly the line. -/
+theorem bundled_roundtrip_tcp :
+    ∀ t ∈ Huginn.Gen.BundledChars.tcpSigs, ∃ s, parseTcpSigFull t = some s ∧ printTcpSig s = t := by
+  intro t ht
+  apply tcpLineOk_iff.mp
+  simp only [Huginn.Gen.BundledChars.tcpSigs, List.mem_append] at ht
+  have := fun (l : List Str) (h : l.all tcpLineOk = true) (hm : t ∈ l) => List.all_eq_true.mp h t hm
+  rcases ht with ((((((h | h) | h) | h) | h) | h) | h) | h
+  · exact this _ tcp0_ok h
+  · exact this _ tcp1_ok h
+  · exact this _ tcp2_ok h
+  · exact this _ tcp3_ok h
+  · exact this _ tcp4_ok h
+  · exact this _ tcp5_ok h
+  · exact this _ tcp6_ok h
+  · exact this _ tcp7_ok h
+
+/-- the same for the `[http:*]` sections -/
+theorem bundled_roundtrip_http :
+    ∀ t ∈ Huginn.Gen.BundledChars.httpSigs, ∃ s, parseHttpSigFullL t = some s ∧ printHttpSigL s = t := by
+  intro t ht
+  apply httpLineOk_iff.mp
+  simp only [Huginn.Gen.BundledChars.httpSigs, List.mem_append] at ht
+  have := fun (l : List Str) (h : l.all httpLineOk = true) (hm : t ∈ l) => List.all_eq_true.mp h t hm
+  rcases ht with ((((((h | h) | h) | h) | h) | h) | h) | h
+  · exact this _ http0_ok h
+  · exact this _ http1_ok h
+  · exact this _ http2_ok h
+  · exact this _ http3_ok h
+  · exact this _ http4_ok h
+  · exact this _ http5_ok h
+  · exact this _ http6_ok h
+  · exact this _ http7_ok h
+
+/-- non-vacuity: the regenerated lists are not empty -/
+example : Huginn.Gen.BundledChars.tcpSigs.length > 100 ∧ Huginn.Gen.BundledChars.httpSigs.length > 50 := by
+  decide +kernel
 
 end Huginn.Props.C06
